@@ -175,7 +175,7 @@ pub fn exercise(c: &Case, rec: &mut Rec) -> Result<(), String> {
                         let n = if c.machine == Machine::K48 { 1 } else { 2 };
                         let per = c.data.len() / n.max(1);
                         let pages = (0..n).map(|i| c.data[i * per..(i + 1) * per].to_vec()).collect();
-                        e.load_rom(MemRomSet { pages }).map_err(|x| format!("{:?}", x))
+                        e.load_rom(MemRomSet { pages, chunk: 0 }).map_err(|x| format!("{:?}", x))
                     }
                     Target::Tap => {
                         let mut r = e.load_tape(Tape::Tap(asset(c))).map_err(|x| format!("{:?}", x));
